@@ -10,6 +10,7 @@ package checks
 import (
 	"bytes"
 	"fmt"
+	"strings"
 	"sync/atomic"
 	"testing"
 	"time"
@@ -39,6 +40,9 @@ type c23Case struct {
 	// OtherTS > 0: a second, unrelated export with this TransferSize is created in the same process after the one under
 	// test (and retuned once more); exports do not share limits
 	OtherTS int `json:"other_transfer_size,omitempty"`
+	// BigCred: the client identifies itself with the largest AUTH_SYS credential the protocol allows (255-byte machine
+	// name, 16 supplementary groups); a WRITE of the advertised wtmax must fit into a record all the same
+	BigCred bool `json:"big_cred,omitempty"`
 }
 
 var c23Sizes = []int{1, 7, 512, 4096, 65536, 100000, 1 << 20, 1 << 22, 0}
@@ -59,6 +63,7 @@ func genC23(t *rapid.T) c23Case {
 	if rapid.Bool().Draw(t, "fragmented") {
 		c.FragBytes = pick(t, "frag_bytes", 100, 4096, 65536, 262144, 524288, 1000000)
 	}
+	c.BigCred = rapid.Bool().Draw(t, "bigcred")
 	return c
 }
 
@@ -66,11 +71,18 @@ type c23Conn struct {
 	cl   *drv.TCPClient
 	xid  uint32
 	frag int
+	big  bool
 }
+
+var c23BigGids = []uint32{1, 2, 3, 4, 5, 6, 7, 8, 9, 10, 11, 12, 13, 14, 15, 16}
 
 func (c *c23Conn) call(proc uint32, prog uint32, args []byte) (*nfsx.Reply, error) {
 	c.xid++
-	msg := nfsx.Call(c.xid, prog, 3, proc, nfsx.AuthSys(1, "h", 0, 0, nil), nfsx.AuthNone(), args)
+	cred := nfsx.AuthSys(1, "h", 0, 0, nil)
+	if c.big {
+		cred = nfsx.AuthSys(1, strings.Repeat("h", 255), 0, 0, c23BigGids)
+	}
+	msg := nfsx.Call(c.xid, prog, 3, proc, cred, nfsx.AuthNone(), args)
 	var frags []int
 	if c.frag > 0 {
 		for n := c.frag; n < len(msg); n += c.frag {
@@ -148,7 +160,7 @@ func runC23(tb stat.TB, c c23Case) {
 		if err != nil {
 			tb.Fatalf("harness: dial: %v", err)
 		}
-		return &c23Conn{cl: cl, xid: 100, frag: c.FragBytes}
+		return &c23Conn{cl: cl, xid: 100, frag: c.FragBytes, big: c.BigCred}
 	}
 	conn := dial()
 	defer func() { conn.cl.Close() }()
@@ -321,6 +333,9 @@ func runC23(tb stat.TB, c c23Case) {
 		if round("runtime, TransferSize left unset", 0) {
 			return
 		}
+	}
+	if c.BigCred {
+		stat.Label("largest_auth_sys_credential", 1)
 	}
 	stat.Case(c, nt)
 }
